@@ -419,6 +419,11 @@ func (f *freshness) freeVarFresh(v ssa.Value, fv *ssa.FreeVar) bool {
 				continue
 			}
 			found = true
+			// a closure that outlives its creator (returned / stored) shares its
+			// captured variables between all of its invocations: not fresh
+			if closureEscapes(mc) {
+				return f.notFresh(v, "variable "+fv.Name()+" captured by a closure that outlives "+short(parent)+" (shared by all its invocations)")
+			}
 			switch bind := mc.Bindings[idx].(type) {
 			case *ssa.Alloc:
 				if !f.cellFresh(v, bind) {
@@ -524,3 +529,48 @@ func rootOfAddr(v ssa.Value) ssa.Value {
 // funcDescriptor: stable descriptor of an instruction's enclosing function.
 func funcDescriptor(fn *ssa.Function) string { return short(fn) }
 
+
+// closureEscapes: the closure value is used other than by being called or
+// handed to a callee as an argument (i.e. it is returned or stored).
+func closureEscapes(mc *ssa.MakeClosure) bool {
+	var walk func(v ssa.Value, depth int) bool
+	walk = func(v ssa.Value, depth int) bool {
+		refs := v.Referrers()
+		if refs == nil || depth > 4 {
+			return true
+		}
+		for _, ref := range *refs {
+			switch x := ref.(type) {
+			case *ssa.Call, *ssa.Defer, *ssa.Go:
+				// callee position or an argument handed down
+			case *ssa.DebugRef:
+			case *ssa.ChangeType:
+				if walk(x, depth+1) {
+					return true
+				}
+			case *ssa.MakeInterface:
+				if walk(x, depth+1) {
+					return true
+				}
+			case *ssa.Store:
+				if _, local := x.Addr.(*ssa.Alloc); local && x.Val == v {
+					// stored in a local variable: follow its loads
+					al := x.Addr.(*ssa.Alloc)
+					for _, r2 := range *al.Referrers() {
+						if ld, ok := r2.(*ssa.UnOp); ok {
+							if walk(ld, depth+1) {
+								return true
+							}
+						}
+					}
+					continue
+				}
+				return true
+			default:
+				return true
+			}
+		}
+		return false
+	}
+	return walk(mc, 0)
+}
